@@ -65,6 +65,11 @@ def stepLine (s : St) (line : String) : St × String :=
   | ["case", n] => ({}, s!"case {n}")
   | ["end"] => ({}, "end")
   | ["backoff", _] => (s, "ok")
+  | ["list"] =>
+    if s.busy != .idle then (s, s!"disabled {summary s}") else
+    -- ListPeers: the keys of ps.peers, sorted (peers are p0..p3 in the protocol)
+    let ps := (List.range 4).filter fun p => (s.peers p).isSome
+    (s, s!"ok [{",".intercalate (ps.map fun p => s!"p{p}")}] {summary s}")
   | ts =>
     match doOp s ts with
     | none => (s, "bad-op")
